@@ -57,13 +57,26 @@ def slice_(
 
     pipeline: list[Any] = []
 
-    if _stop >= 0:
-        pipeline.append(ops.take(_stop))
+    if _start < 0 < _stop and stop is not None:
+        # A negative start counts from the end of the whole sequence, so it
+        # must be resolved before the stop index cuts the sequence: tag each
+        # element with its index, keep the tail, then drop what is at or
+        # after the stop index.
+        def tag(acc: tuple[int, Any], x: _T) -> tuple[int, Any]:
+            return (acc[0] + 1, x)
 
-    if _start > 0:
-        pipeline.append(ops.skip(_start))
-    elif _start < 0:
+        pipeline.append(ops.scan(tag, (-1, None)))
         pipeline.append(ops.take_last(-_start))
+        pipeline.append(ops.filter(lambda t: t[0] < _stop))
+        pipeline.append(ops.map(lambda t: t[1]))
+    else:
+        if _stop >= 0:
+            pipeline.append(ops.take(_stop))
+
+        if _start > 0:
+            pipeline.append(ops.skip(_start))
+        elif _start < 0:
+            pipeline.append(ops.take_last(-_start))
 
     if _stop < 0:
         pipeline.append(ops.skip_last(-_stop))
